@@ -528,6 +528,37 @@ def _reuse_base_object(obj):
     obj.setZ(obj.getZ() + 135.0)
 
 
+def _run_lattice_rebase(case, ctx):
+    """A straight track sampled every metre, expressed relative to its last fix, re-based on one of its own vertices:
+    the old local coordinates of later fixes coincide with the NEW local coordinates of earlier ones.  The re-based
+    track must agree, fix by fix, with the point-wise change of base."""
+    from tracklib.core.obs_coords import ENUCoords, GeoCoords
+    b1 = case["b1"]
+    B1 = GeoCoords(b1[0], b1[1], b1[2])
+    n = 6 + len(case["pts"]) % 5
+    step = [(1.0, 0.0), (0.0, 1.0), (1.0, 1.0), (2.0, -1.0)][len(case["pts"]) % 4]
+    loc = [(step[0] * i, step[1] * i, 0.0) for i in range(-(n - 1), 1)]
+    geo = [_need(M.call(ENUCoords(*p).toGeoCoords, B1), "ENUCoords.toGeoCoords(base)", base=b1, enu=list(p)) for p in loc]
+    tr = gen.make_track([(g.lon, g.lat, g.hgt) for g in geo], coord="GEO")
+    _need(M.call(tr.toENUCoords, B1), "Track.toENUCoords(base)", base=b1)
+    k = (len(case["pts"]) * 3) % (n - 1)
+    B2 = GeoCoords(geo[k].lon, geo[k].lat, geo[k].hgt)
+    before = _coords(tr)
+    want = []
+    for p in before:
+        q = _need(M.call(ENUCoords(p[0], p[1], p[2]).toENUCoords, B1, B2), "ENUCoords.toENUCoords(b1, b2)", enu=p)
+        want.append([q.getX(), q.getY(), q.getZ()])
+    _need(M.call(tr.toENUCoords, B2), "Track.toENUCoords(b2) on an ENU track", base=b1, vertex=k)
+    got = _coords(tr)
+    ctx.monitor("track.rebased_on_one_of_its_own_vertices")
+    for i in range(n):
+        d = max(abs(got[i][c] - want[i][c]) for c in range(3))
+        if not (d <= 1e-3):
+            raise Bad({"what": "a track re-based on one of its own vertices disagrees with the point-wise change of base",
+                       "fix": i, "vertex_taken_as_new_base": k, "b1": b1, "local_before": before[i], "got": got[i],
+                       "expected": want[i], "error_m": d})
+
+
 def _run_track(case, ctx):
     pts = case["pts"]
     tr = gen.make_track(pts, coord="GEO")
@@ -742,6 +773,8 @@ def run_case(case, ctx):
             if len(pts) in (1, 20):
                 cls.add("track_len_%d" % len(pts))
             nconv = _run_track(case, ctx)
+            if len(pts) % 3 == 1:
+                _run_lattice_rebase(case, ctx)
             nt = nconv >= 2 and (case["base_form"] != "none" or len(pts) > 1)
             return held(sig, nt, sorted(cls))
         if kind == "track_l93":
